@@ -149,7 +149,12 @@ def check(pid, tier):
                          and not p.dead), None)
             if proc is None:
                 harness_exit("no worker left for minimisation")
-            target = {"victim": v["victim"]} if v.get("victim") \
+            # machines whose raw signature is already precise minimise
+            # against the exact signature (a run may contain a known finding
+            # with the same victim); history machines whose trigger part
+            # shrinks with the run minimise against the victim
+            target = {"victim": v["victim"]} if (
+                v.get("victim") and m.minimise_by == "victim") \
                 else {"sig": sig}
             kind, val = pool.call(proc, "minimise",
                                   (pid, r["run"], target, 60.0, 200), 150)
